@@ -76,6 +76,15 @@ def _gen_comparison(rng, tier, variant):
             for lit in ('0', '5', '2.5', 'x'):
                 yield {'op': op, 'cal': rng.choice([True, False]), 'items': [['Q', ['IntParameter', 1, None]]],
                        'lit': lit, 'ref': 'P', 'cur': _enc(cur)}
+    # floats that differ from the literal by one unit in the last place or by less than 1e-9 relative, and integers
+    # beyond 2**53 against float values: the relation is the exact one, not an approximate one
+    near = [(1.0 + 2 ** -40, '1.0'), (1.0, '1.0000000000009095'), (4294967296.0, '4294967297'), (0.1 + 0.2, '0.3'),
+            (1e-12, '0'), (9007199254740992.0, '9007199254740993'), (2.5, '2.5000000000000004'), (-1.0 - 2 ** -45, '-1')]
+    for op in OPS:
+        for v, lit in near:
+            for cls_, raw in (('FloatParameter', 1), ('FloatParameter', None)):
+                yield {'op': op, 'cal': True, 'items': [['P', [cls_, _enc(v), _enc(raw)]]], 'lit': lit, 'ref': 'P', 'cur': None}
+            yield {'op': op, 'cal': False, 'items': [['Q', ['IntParameter', 1, None]]], 'lit': lit, 'ref': 'P', 'cur': _enc(v)}
 
 
 def _build_comparison(r):
@@ -125,15 +134,27 @@ def _build_condition(r):
     return {'make': make}
 
 
-def _rand_tree(rng, depth, kind):
-    """nested ANDed/ORed groups over conditions A..D == 1"""
+def _rand_cond(rng):
+    """[left, operator, literal | None, right parameter | None, left selector, right selector] over A/B"""
+    if rng.random() < 0.6:
+        return [rng.choice('AB'), rng.choice(['==', '!=', '<=', 'gt']), rng.choice(['0', '1']), None,
+                rng.choice([True, False]), False]
+    return [rng.choice('AB'), rng.choice(['==', '!=', '<']), None, rng.choice('AB'), rng.choice([True, False]),
+            rng.choice([True, False])]
+
+
+def _rand_tree(rng, depth, kind, rich=False):
+    """nested ANDed/ORed groups over conditions A..D == 1 (rich: conditions with both selectors, several operators and
+    parameter right sides, repeated with variations inside one tree)"""
     conds = [rng.choice('ABCD') for _ in range(rng.randint(0, 2))]
+    if rich:
+        conds = [_rand_cond(rng) for _ in range(rng.randint(0, 3))]
     subs = []
     if depth > 0:
         for _ in range(rng.randint(0, 2)):
-            subs.append(_rand_tree(rng, depth - 1, 'or' if kind == 'and' else 'and'))
+            subs.append(_rand_tree(rng, depth - 1, 'or' if kind == 'and' else 'and', rich))
     if not conds and not subs:
-        conds = [rng.choice('ABCD')]
+        conds = [_rand_cond(rng) if rich else rng.choice('ABCD')]
     return {'k': kind, 'c': conds, 's': subs}
 
 
@@ -167,7 +188,9 @@ def _gen_boolexpr(rng, tier, variant):
 
 def _mk_tree(t):
     from space_packet_parser.xtce.comparisons import Condition, Anded, Ored
-    conds = [Condition(n, '==', right_value='1', right_use_calibrated_value=False) for n in t['c']]
+    conds = [Condition(n, '==', right_value='1', right_use_calibrated_value=False) if isinstance(n, str) else
+             Condition(n[0], n[1], right_value=n[2], right_param=n[3], left_use_calibrated_value=n[4],
+                       right_use_calibrated_value=n[5]) for n in t['c']]
     if t['k'] == 'cond':
         return conds[0]
     subs = [_mk_tree(s) for s in t['s']]
@@ -177,7 +200,8 @@ def _mk_tree(t):
 def _build_boolexpr(r):
     def make():
         from space_packet_parser.xtce.comparisons import BooleanExpression
-        items = [[k, ['IntParameter', v, None]] for k, v in r['vals'].items()]
+        raws = r.get('raws') or {}
+        items = [[k, ['IntParameter', v, raws.get(k)]] for k, v in r['vals'].items()]
         return {'self': BooleanExpression(_mk_tree(r['tree'])), 'packet': mk_packet(items),
                 'current_parsed_value': r.get('cur')}
     return {'make': make}
